@@ -201,6 +201,17 @@ class ConfigShape(PipeShape):
     def expected_outcomes(self):
         return self.params.get('expect', ['ok', 'rejected'])
 
+    def cli_summary(self, model):
+        d = super().cli_summary(model)
+        if d is not None:
+            d['as_json'] = self.case.run_cli(model, config_json=True).kind      # the definition written as (tab-indented) JSON
+        return d
+
+    def judge_cli(self, summary, cli):
+        d = dict(super().judge_cli(summary, cli))
+        d['C19.definition_written_as_json_is_treated_like_the_yaml_one'] = (cli.get('as_json') in (None, cli['kind']))
+        return d
+
     def judge(self, env, out):
         ns = {n: env.z(n) for n in self.case.symbols()}
         ns.update({'And': z3.And, 'Or': z3.Or, 'Not': z3.Not, 'true': z3.BoolVal(True), 'false': z3.BoolVal(False)})
